@@ -555,6 +555,20 @@ class SymDT(object):
         return True if r is NotImplemented else r
 
     # ---- local time zone (the only OS dependency)
+    tzinfo = None
+    fold = 0
+
+    def astimezone(self, tz=None):
+        """naive value read as local time -> UTC (like mktime, fold=0) -> local wall clock of that instant; the result stands
+        for the aware value (its tzinfo is dropped by replace(tzinfo=None); arithmetic on it is wall-clock arithmetic)"""
+        if tz is not None:
+            raise ModelGap("astimezone(tz) with an explicit zone")
+        u = self.us - tz_offset_us(self.us, local=True)
+        return SymDT(u + tz_offset_us(u, local=False))
+
+    def utcoffset(self):
+        return None
+
     def timestamp(self):
         off = tz_offset_us(self.us, local=True)
         u = self.us - off
